@@ -163,7 +163,8 @@ func VerifC12Timer() {
 // VerifC12CloseFault: teardown paths on which the pool-wide closeAll does not run or does not cover a connection:
 // (0) Session.Close while one connection has just been reset (the closing notice may fail to be written),
 // (1) a connection attached just after the session was torn down and then dropped by the peer,
-// (2) the peer closes the session while one of our connections has just been reset.
+// (2) the peer closes the session while one of our connections has just been reset,
+// (3) a send fails before any reader has noticed a fault.
 // In each, both sessions end up closed and every connection of the session ends up closed locally.
 func VerifC12CloseFault() {
 	vapi.RandZero(true)
@@ -176,8 +177,16 @@ func VerifC12CloseFault() {
 	net.run()
 	vapi.Assert(srv != nil, "C12: stream established")
 	var late *vconn.Conn
-	scenario := vapi.Pick("scenario", 3)
+	scenario := vapi.Pick("scenario", 4)
 	switch scenario {
+	case 3:
+		// a send fails on one connection before anybody has seen a read error on it (the sender notices the fault
+		// first): the session tears itself down and closes every pooled connection
+		for _, c := range net.cc { // whichever connection the stream is mapped to
+			c.FailWrite = len(c.Writes) + 1
+		}
+		_, werr := cl.Write(vapi.Bytes("x", 1))
+		vapi.Assert(werr != nil, "C12: the write on the failed connection reports the error")
 	case 0:
 		net.cc[vapi.Pick("which", nconn)].Reset()
 		net.cs.Close()
